@@ -101,7 +101,13 @@ def parse_sanitizer_log(text):
     fatal = []
     ub = {}
     for i, ln in enumerate(lines):
-        m = re.search(r"(\S+?):(\d+):(\d+): runtime error: (.*)", ln)
+        # cheap substring tests first: the regexes below backtrack quadratically on very long blank-free lines
+        # (a harness under a broken tree may print megabytes of them)
+        if "runtime error: " not in ln and "SUMMARY: " not in ln:
+            continue
+        if len(ln) > 4000:
+            ln = ln[:2000] + " ... " + ln[-2000:]
+        m = re.search(r"(\S+?):(\d+):(\d+): runtime error: (.*)", ln) if "runtime error: " in ln else None
         if m:
             fn = os.path.basename(m.group(1))
             msg = m.group(4)
